@@ -178,6 +178,16 @@ CLAIMED["C15"] = dict(
     note="Trusted: JSON keeps 15 decimal places (pandas / pandapower encoder) - JSON paths compared with 1e-15 abs + 1e-14 rel, pickle exactly. "
          "Known finding: inf (default max_m_stored_kg) becomes NaN in JSON.",
     ref="DESIGN.md 4/C15")
+CLAIMED["C13"] = dict(
+    technique="differential property-based testing: generated time series (profiles, step subsets / orders, infeasible steps) vs stand-alone pipeflow per step",
+    text="Exploration: generated nets get ConstControl profiles for a generated subset of sinks, sources (mass flow) and ext grids "
+         "(pressure) over 3-8 steps, with steps made infeasible on purpose; the series is run for a generated subset of steps in a generated "
+         "order with and without continue_on_divergence (hydraulic and sequential mode). Every logged row of the OutputWriter must equal, bit "
+         "for bit, a pipeflow on a freshly built net carrying that step's values; failing steps must be flagged (powerflow_failed) and must "
+         "not alter later steps, or must stop the series with PipeflowNotConverged.",
+    note="Trusted: pandapower's ConstControl / OutputWriter / DFData as the time-series infrastructure. Multi-energy time series are covered "
+         "by C20's check.",
+    ref="DESIGN.md 4/C13")
 NOT_YET = {}
 
 def main():
